@@ -77,6 +77,10 @@ def chainLen (lens : List Nat) : Nat := (cumsum lens).getLastD 0
 def nestGet (idx : List Int) (key : Int) : Option Int :=
   (getIdx key idx.length).map fun k => idx.getD k 0
 
+/-- `Tree.from_swc(path)` as a state-passing callback of the translated code: the state is the list of files read so
+far; the tree is identified by its file -/
+def readLog : List Int → Int → List Int × Int := fun s f => (s ++ [f], f)
+
 /-! ## driver -/
 def parseLOps (s : String) : Option (List LOp) :=
   (s.splitOn ";").filter (· ≠ "") |>.mapM fun t =>
